@@ -448,6 +448,11 @@ class SparselyBin(Factory, Container):
         """List of sub-aggregators, to make it possible to walk the tree."""
         return [self.value, self.nanflow] + list(self.bins.values())
 
+    @property
+    def _fillableChildren(self):
+        # ``value`` is a never-filled template that zero()/+ share between containers
+        return [self.nanflow] + list(self.bins.values())
+
     @inheritdoc(Container)
     def toJsonFragment(self, suppressName):
         if isinstance(self.value, Container):
